@@ -1,7 +1,11 @@
-"""C05 -- semantic (unit-wise symbolic) rules for the rainflow counters.  See e7_sym for the engine."""
+"""C05 -- semantic rules for the rainflow counters on the transition systems of e7_sym (see there for the engine).
+
+Every implementation (c_rain.rainflow1/2, py_rain._rainflow1/2) and the ASTM E1049 reference automaton is executed symbolically into a graph
+of transitions between loop heads; the rules compare the *effects* of the transitions (stack contents, emitted rows, counters) up to a
+change of variables that is derived from each program, never the spelling of the statements."""
 from __future__ import annotations
 
-import itertools
+import os
 from fractions import Fraction
 
 from . import e7_rainir as R
@@ -10,190 +14,154 @@ from .core import Unsupported
 from .e8_karr import Aff, V
 
 HALF, ONE = ("num", Fraction(1, 2)), ("num", Fraction(1))
+CFILE = "pyyeti/rainflow/c_rain.c"
+PYFILE = "pyyeti/rainflow/py_rain.py"
+SHAPE = [Y.START, "H1", "H2", "H3", Y.EPI]
 
 
-def rowvar_of(region):
-    """the variable Python uses as output row index (the `n` of `rf[n, 0] = ...`)"""
-    names = set()
-    for s in R.walk_ir(region):
-        if s[0] == "cell":
-            names |= R.expr_vars(s[2])
-    if len(names) != 1:
-        raise Unsupported(f"output rows are indexed by {sorted(names)} (expected one row counter)")
-    return next(iter(names))
+def check_shape(ts, what):
+    """the count loop with its inner loop, then the step-6 loop: anything else is not the three-point stack algorithm this checker can read"""
+    heads = [n for n in ts.nodes if n.startswith("H")]
+    ok = heads == ["H1", "H2", "H3"] and ts.phase.get("H1") == 1 and ts.phase.get("H2") == 1 and ts.phase.get("H3") == 2
+    if not ok:
+        raise Unsupported(f"{what}: not a three-point stack loop (expected a count loop with one inner loop followed by the step-6 loop; "
+                          f"found loop heads {[(n, ts.phase.get(n)) for n in heads]})")
+    if Y.EPI not in ts.nodes:
+        raise Unsupported(f"{what}: the code after the step-6 loop was not reached")
 
 
-def implementations(ctx, S):
-    """{(side, name): dict(res, state, inits, where, with_offsets)}"""
+def implementations(ctx):
+    """{(side, name): dict(ex, raw, norm, where, offsets)}"""
     if hasattr(ctx, "_c05impl"):
         return ctx._c05impl
     out = {}
+    cu = R.CUnit(os.path.join(ctx.repo, CFILE))
+    ctx._c05cu = cu
     for nm in ("rainflow1", "rainflow2"):
-        d = S.c[nm]
-        res, st = Y.effects(d["region"])
-        out[("C", nm)] = dict(res=res, state=st, inits=d["inits"], where=f"pyyeti/rainflow/c_rain.c ({nm})", offsets=nm.endswith("2"), rowvar=None)
+        ex = Y.Exec(cu, nm, param_kinds=["array", "int"], label=f"C {nm}").run()
+        raw = Y.assign_roles(Y.build_ts(ex))
+        check_shape(raw, f"C {nm}")
+        out[("C", nm)] = dict(ex=ex, raw=raw, where=f"{CFILE} ({nm})", offsets="os" in raw.allocs, unit=cu)
+    pu = R.PyUnit(ctx.src.mod(PYFILE).tree)
+    ctx._c05pu = pu
     for nm in ("_rainflow1", "_rainflow2"):
-        d = S.py[nm]
-        ini, reg = d["raw"]
-        rv = rowvar_of(reg)
-        res, st = Y.effects(reg, rowvar=rv)
-        out[("py", nm)] = dict(res=res, state=st, inits=ini, where=d["fn"], offsets=nm.endswith("2"), rowvar=rv)
+        fn = ctx.src.func(PYFILE, nm)
+        ex = Y.Exec(pu, nm, param_kinds=["array", "int"], label=f"py {nm}").run()
+        raw = Y.assign_roles(Y.build_ts(ex))
+        check_shape(raw, f"py {nm}")
+        out[("py", nm)] = dict(ex=ex, raw=raw, where=fn, offsets="os" in raw.allocs, unit=pu)
+    for k, d in out.items():
+        d["norm"] = Y.normalise(d["raw"])
+        want = k[1].endswith("2")
+        if d["offsets"] != want:
+            raise Unsupported(f"{k[0]} {k[1]}: {'no ' if want else 'an unexpected '}offsets table is allocated")
     ctx._c05impl = out
     return out
 
 
-def compare(a, b, amap=None, drop_a=(), drop_b=()):
-    """first difference between two implementations' effects under the best renaming of b's state variables (None = equal)"""
-    amap = amap or {}
-    sa = {v for v in a["state"]}
-    sb = {v for v in b["state"]}
-    common = sa & sb
-    ra, rb = sorted(sa - common), sorted(sb - common)
-    best = None
-    cands = [dict(zip(rb, perm)) for perm in itertools.permutations(ra, len(rb))] if len(rb) <= len(ra) and len(ra) <= 5 else [{}]
-    if not cands:
-        cands = [{}]
-    na = Y.normal_form(a["res"], a["state"])
-    for mp in cands:
-        m = dict(mp)
-        m.update(amap)
-        nb = Y.normal_form(b["res"], b["state"], m)
-        d = Y.first_difference(_drop(na, drop_a), _drop(nb, drop_b))
-        if d is None:
-            return None, m
-        if best is None:
-            best = d
-    return best, {}
+class RefFunc:
+    def __init__(self, body):
+        self.name = "astm_e1049"
+        self.params = [("peaks", "ptr", ""), ("L", "int", "")]
+        self.body = body
+        self.ctypes = {}
+        self.defaults = {}
 
 
-def _drop(nf, names):
-    if not names:
-        return nf
-    out = dict(nf)
-    for u in ("push", "pop", "mid", "tail"):
-        eff = {}
-        for k, d in nf[u].items():
-            eff[k] = {"scalars": d["scalars"], "break": d["break"],
-                      "arrays": {a: v for a, v in d["arrays"].items() if a not in names},
-                      "out": {a: v for a, v in d["out"].items() if a not in names}}
-        out[u] = eff
-    return out
+class RefUnit:
+    def __init__(self, body):
+        self.f = RefFunc(body)
+
+    def func(self, name, required=True):
+        return self.f
+
+    def helper(self, name):
+        return None
+
+
+def reference(with_offsets, astm_reference):
+    ex = Y.Exec(RefUnit(astm_reference(with_offsets)), "astm_e1049", param_kinds=["array", "int"], label="ASTM E1049-85 5.4.4").run()
+    raw = Y.assign_roles(Y.build_ts(ex))
+    check_shape(raw, "reference")
+    return dict(ex=ex, raw=raw, norm=Y.normalise(raw), where="ASTM E1049-85 5.4.4 (transcribed in verifier/c05.py)", offsets=with_offsets)
+
+
+UNIT_NAMES = {Y.START: "initialisation (everything before the count loop)", "H1": "count loop: read the next point (push), or leave for step 6",
+              "H2": "inner loop: compare the two ranges on top of the stack, count and discard (pop), or go back for the next point",
+              "H3": "step 6: one remaining range per pass, or finish"}
+
+
+def compare_units(a, b):
+    """{cut point: first difference | None} under the renaming of b's state variables that leaves the fewest differing units"""
+    d, mp = Y.compare(a, b)
+    if d is None:
+        return {n: None for n in SHAPE[:-1]}, mp
+    if not mp:
+        return {n: d for n in SHAPE[:-1]}, mp
+    # per-unit result under that renaming
+    tmp = {vb: f"~{i}" for i, vb in enumerate(sorted(mp))}
+    b2 = Y.rename_ts(Y.rename_ts(b, tmp), {tmp[vb]: va for vb, va in mp.items()})
+    b2.ex = a.ex
+    out = {}
+    for n in SHAPE[:-1]:
+        out[n] = Y.compare_named(a, b2, only=n)
+    if all(v is None for v in out.values()):
+        out[SHAPE[0]] = d
+    return out, mp
 
 
 # ---------------------------------------------------------------------------
-def r1_equivalence(ctx, S):
-    impl = implementations(ctx, S)
+def r1_equivalence(ctx):
+    impl = implementations(ctx)
     for cn, pn in (("rainflow1", "_rainflow1"), ("rainflow2", "_rainflow2")):
         a, b = impl[("C", cn)], impl[("py", pn)]
-        d, mp = compare(a, b)
-        ctx.check(d is None, f"c_rain.{cn} == py_rain.{pn}: unit by unit (push, pop, between the loops, step 6) the same paths with the same "
-                             "effects on the reversal stack, the counters and the output rows (exact expression trees)", f"{a['where']} vs {ctx._where(b['where'])}", d)
-        inv = {v: k for k, v in mp.items()}
-        for var in sorted(a["state"]):
-            if var in a["inits"] or inv.get(var, var) in b["inits"]:
-                va, vb = a["inits"].get(var), b["inits"].get(inv.get(var, var))
-                ok = va is not None and va == vb
-                ctx.check(ok, f"{cn}/{pn}: initial value of the state variable {var} agrees ({va} vs {vb})", a["where"])
-        rv = b["rowvar"]
-        ok = b["inits"].get(rv) == -1
-        ctx.check(ok, f"{pn}: the row counter `{rv}` starts at -1 (the first row written is row 0)", b["where"])
+        res, mp = compare_units(a["norm"], b["norm"])
+        for n in SHAPE[:-1]:
+            d = res[n]
+            ctx.check(d is None, f"c_rain.{cn} == py_rain.{pn} [{UNIT_NAMES[n]}]: under jointly satisfiable conditions both make the same move with the same "
+                                 "effect on the reversal stack, the counters and the output rows (exact floating-point expression trees, counters up to "
+                                 "the change of variables derived from each program)", f"{a['where']} vs {ctx._where(b['where'])}", d,
+                      key=f"C05-R1|{cn}|{n}")
 
 
-def r2_erasure(ctx, S):
-    impl = implementations(ctx, S)
+def r2_erasure(ctx):
+    impl = implementations(ctx)
     for side, n1, n2 in (("C", "rainflow1", "rainflow2"), ("py", "_rainflow1", "_rainflow2")):
         a, b = impl[(side, n1)], impl[(side, n2)]
-        d, _ = compare(a, b, drop_b=("cycle_index", "os"))
-        ctx.check(d is None, f"{side} {n1} == {n2} with the offset bookkeeping erased (same values, counts and stack moves)", b["where"], d)
+        erased = Y.normalise(Y.drop_arrays(b["raw"], ("cycle_index", "os")))
+        res, mp = compare_units(a["norm"], erased)
+        for n in SHAPE[:-1]:
+            ctx.check(res[n] is None, f"{side} {n1} == {n2} with the offset bookkeeping erased [{UNIT_NAMES[n].split(':')[0]}]: same values, counts and stack moves",
+                      b["where"], res[n], key=f"C05-R2|{side}|{n}")
 
 
-def reference_effects(with_offsets, astm_reference):
-    reg = astm_reference(with_offsets)
-    res, st = Y.effects(reg)
-    return dict(res=res, state=st, inits={}, where="ASTM E1049-85 5.4.4 (transcribed in verifier/c05.py)", offsets=with_offsets)
-
-
-def r3_astm(ctx, S, astm_reference):
-    impl = implementations(ctx, S)
+def r3_astm(ctx, astm_reference):
+    impl = implementations(ctx)
+    refs = {}
     for (side, nm), a in impl.items():
-        ref = reference_effects(a["offsets"], astm_reference)
-        d, _ = compare(a, ref, amap={"[]ci": "cycle_index"})
-        ctx.check(d is None, f"{side} {nm}: equals the ASTM E1049-85 5.4.4 steps 1-6 automaton - same decisions (fewer than three points, X < Y, "
-                             "Y contains the starting point) and the same effect on every path", a["where"], d)
+        if a["offsets"] not in refs:
+            refs[a["offsets"]] = reference(a["offsets"], astm_reference)
+        ref = refs[a["offsets"]]
+        res, mp = compare_units(ref["norm"], a["norm"])
+        for n in SHAPE[:-1]:
+            ctx.check(res[n] is None, f"{side} {nm} [{UNIT_NAMES[n].split(':')[0]}]: equals the ASTM E1049-85 5.4.4 steps 1-6 automaton - same decisions (fewer than "
+                                      "three points, X < Y, Y contains the starting point) and the same effect on every path", a["where"], res[n],
+                      key=f"C05-R3|{side} {nm}|{n}")
 
 
 # ---------------------------------------------------------------------------
-def _sel(e):
-    return isinstance(e, tuple) and e and e[0] == "sel"
+def _sel(e, arr=None):
+    return isinstance(e, tuple) and e and e[0] == "sel" and (arr is None or e[1] == arr)
 
 
-def r5_lockstep(ctx, S):
-    """values and their original positions move together: every store into the reversal stack is mirrored on the index stack, and each
-    emitted offset pair names the two points whose range is emitted"""
-    impl = implementations(ctx, S)
-    for (side, nm), a in impl.items():
-        if not a["offsets"]:
-            continue
-        n = 0
-        for unit in ("push", "pop", "mid", "tail"):
-            for key, d in a["res"][unit].items():
-                pts, ci = d["arrays"].get("pts", {}), d["arrays"].get("cycle_index", {})
-                ok = set(pts) == set(ci)
-                detail = None
-                if ok:
-                    for ix, v in pts.items():
-                        w = ci[ix]
-                        if _sel(v) and v[1] == "pts":
-                            good = w == ("sel", "cycle_index", v[2])
-                        elif _sel(v) and v[1] == "peaks":
-                            good = w == v[2] or (w[0] == "var" and v[2] == ("aff", ((w[1], Fraction(1)),), Fraction(0)))
-                        else:
-                            good = False
-                        if not good:
-                            ok, detail = False, {"index": repr(ix), "value": repr(v), "position": repr(w)}
-                            break
-                else:
-                    detail = {"pts stores": sorted(map(repr, pts)), "cycle_index stores": sorted(map(repr, ci))}
-                if pts or ci:
-                    n += 1
-                    ctx.check(ok, f"{side} {nm} [{unit}]: every value moved on the reversal stack has its original position moved the same way", a["where"], detail)
-                # emitted offsets
-                rf, os_ = d["out"].get("rf", {}), d["out"].get("os", {})
-                rows = sorted({r for r, _ in rf})
-                for r in rows:
-                    n += 1
-                    mean = rf.get((r, 1))
-                    pq = None
-                    if mean and mean[0] == "bin" and mean[1] == "/" and mean[2][0] == "bin" and mean[2][1] == "+":
-                        pq = [mean[2][2], mean[2][3]]
-                    want = None
-                    if pq and all(_sel(x) and x[1] == "pts" for x in pq):
-                        want = {("sel", "cycle_index", pq[0][2]), ("sel", "cycle_index", pq[1][2])}
-                    elif pq and unit == "tail":
-                        # step 6: A carries pts[k] (A = pts[0] before the loop, A <- pts[k+1] at the end of each pass, k from 0)
-                        var = [x for x in pq if x[0] == "var"]
-                        sel = [x for x in pq if _sel(x) and x[1] == "pts"]
-                        mid = [dd["scalars"].get(var[0][1]) for dd in a["res"]["mid"].values()] if var else []
-                        kv = a["res"]["tail_range"][0]
-                        nxt = d["scalars"].get(var[0][1]) if var else None
-                        kplus1 = ("aff", ((kv, Fraction(1)),), Fraction(1))
-                        if len(var) == 1 and len(sel) == 1 and mid == [("sel", "pts", ("num", Fraction(0)))] and a["res"]["tail_range"][1] == ("num", Fraction(0)) \
-                                and sel[0][2] == kplus1 and nxt == sel[0]:
-                            want = {("sel", "cycle_index", ("var", kv)), ("sel", "cycle_index", kplus1)}
-                    got = {os_.get((r, 0)), os_.get((r, 1))}
-                    # order: start before end
-                    ok = want is not None and got == want
-                    if ok and want:
-                        lo = os_.get((r, 0))
-                        # the first offset is the earlier stack position
-                        a0 = _ixaff(lo[2])
-                        a1 = _ixaff(os_.get((r, 1))[2])
-                        dd = a1 - a0
-                        ok = not dd.c and dd.k > 0
-                    ctx.check(ok, f"{side} {nm} [{unit}]: the offsets written with a row are the original positions of the two points whose range and "
-                                  "mean the row holds, earlier point first", a["where"], None if ok else {"row": {str(k): repr(v) for k, v in rf.items() if k[0] == r},
-                                                                                                       "offsets": [repr(x) for x in got]})
-        ctx.check(n >= 6, f"{side} {nm}: lock-step rule bound to {n} stores / rows", a["where"], nontrivial=False)
+def _half_of(e):
+    """x if e == x * 1/2 (either operand order) else None"""
+    if isinstance(e, tuple) and e and e[0] == "bin" and e[1] == "*":
+        if e[2] == HALF:
+            return e[3]
+        if e[3] == HALF:
+            return e[2]
+    return None
 
 
 def _ixaff(e):
@@ -206,14 +174,89 @@ def _ixaff(e):
     raise Unsupported(f"index {e}")
 
 
+def rows_of(stores, cols):
+    """[(flat Aff, value)] -> {row Aff repr: (row Aff, {col: value})}; None when a flat index is not cols*row + col"""
+    rows = {}
+    for flat, val in stores:
+        if any(Fraction(c) % cols for c in flat.c.values()):
+            return None
+        col = flat.k % cols
+        row = Aff({v: c / cols for v, c in flat.c.items()}, (flat.k - col) / cols)
+        rows.setdefault(repr(row), (row, {}))[1][int(col)] = val
+    return rows
+
+
+def r5_lockstep(ctx):
+    """values and their original positions move together: every store into the reversal stack is mirrored on the position stack, and each
+    emitted offset pair names the two points whose range is emitted"""
+    impl = implementations(ctx)
+    for (side, nm), a in impl.items():
+        if not a["offsets"]:
+            continue
+        ts = a["norm"]
+        n = 0
+        for t in ts.trans:
+            if t["src"] == Y.EPI:
+                continue
+            unit = f"{t['src']}->{t['dst']}"
+            pts = {repr(i): (i, v) for i, v in t["arrays"].get("pts", [])}
+            ci = {repr(i): (i, v) for i, v in t["arrays"].get("cycle_index", [])}
+            if pts or ci:
+                n += 1
+                ok = set(pts) == set(ci)
+                detail = None
+                if ok:
+                    for k, (ix, v) in pts.items():
+                        w = ci[k][1]
+                        if _sel(v, "pts"):
+                            good = w == ("sel", "cycle_index", v[2])
+                        elif _sel(v, "peaks"):
+                            good = w == v[2]
+                        else:
+                            good = False
+                        if not good:
+                            ok, detail = False, {"index": repr(ix), "value": Y.show(v), "position": Y.show(w)}
+                            break
+                else:
+                    detail = {"pts stores": sorted(pts), "cycle_index stores": sorted(ci)}
+                ctx.check(ok, f"{side} {nm} [{unit}]: every value moved on the reversal stack has its original position moved the same way", a["where"], detail)
+            rf = rows_of(t["arrays"].get("rf", []), 3)
+            os_ = rows_of(t["arrays"].get("os", []), 2)
+            if rf is None or os_ is None:
+                ctx.error(f"{side} {nm} [{unit}]: output stores are not whole rows", a["where"])
+                continue
+            for rk, (row, cells) in sorted(rf.items()):
+                n += 1
+                mean = _half_of(cells.get(1))
+                pq = None
+                if mean is not None and mean[0] == "bin" and mean[1] == "+":
+                    pq = [mean[2], mean[3]]
+                want = None
+                if pq and all(_sel(x, "pts") for x in pq):
+                    want = {("sel", "cycle_index", pq[0][2]), ("sel", "cycle_index", pq[1][2])}
+                oc = os_.get(rk, (None, {}))[1]
+                got = {oc.get(0), oc.get(1)}
+                ok = want is not None and got == want
+                if ok:
+                    dd = _ixaff(oc[1][2]) - _ixaff(oc[0][2])
+                    ok = not dd.c and dd.k > 0
+                ctx.check(ok, f"{side} {nm} [{unit}]: the offsets written with a row are the original positions of the two points whose range and "
+                              "mean the row holds, earlier point first", a["where"],
+                          None if ok else {"row": {str(k): Y.show(v) for k, v in cells.items()}, "offsets": [Y.show(x) if x else None for x in (oc.get(0), oc.get(1))]})
+            extra = sorted(set(os_) - set(rf))
+            if extra:
+                ctx.fail(f"{side} {nm} [{unit}]: an offsets row is written without its value row", a["where"], extra)
+        ctx.check(n >= 6, f"{side} {nm}: lock-step rule bound to {n} stores / rows", a["where"], nontrivial=False)
+
+
 # ---------------------------------------------------------------------------
 def _mentions_data(e, floats):
-    if isinstance(e, tuple):
-        if e and e[0] == "sel" and e[1] in ("pts", "peaks"):
+    if isinstance(e, tuple) and e:
+        if e[0] == "sel" and e[1] in ("pts", "peaks"):
             return True
-        if e and e[0] == "var" and e[1] in floats:
+        if e[0] == "var" and e[1] in floats:
             return True
-        return any(_mentions_data(x, floats) for x in e)
+        return any(_mentions_data(x, floats) for x in e[1:])
     return False
 
 
@@ -225,118 +268,84 @@ def _is_absdiff(e, floats):
     return e[0] == "abs" and e[1][0] == "bin" and e[1][1] == "-" and _is_point(e[1][2], floats) and _is_point(e[1][3], floats)
 
 
-def r6_value_flow(ctx, S):
+def r6_value_flow(ctx):
     """input values reach the control flow only through |p - q| < |r - s| and the output only as |p - q| / 2 and (p + q) / 2: so negating,
     shifting or positively scaling the input acts on the result in the obvious way and leaves every decision unchanged"""
-    impl = implementations(ctx, S)
+    impl = implementations(ctx)
     for (side, nm), a in impl.items():
-        ints = a["res"]["ints"]
-        floats = {v for v in a["state"] if v not in ints}
+        ts = a["norm"]
+        floats = set(ts.float_vars())
         ntests = nrows = 0
-        for unit in ("push", "pop", "mid", "tail"):
-            for key, d in a["res"][unit].items():
-                for t, taken in d["keyexpr"]:
-                    if _mentions_data(t, floats):
-                        ntests += 1
-                        ok = t[0] == "cmp" and t[1] == "<" and _is_absdiff(t[2], floats) and _is_absdiff(t[3], floats)
-                        ctx.check(ok, f"{side} {nm} [{unit}]: the data-dependent decision is a comparison of two ranges |p - q| < |r - s|", a["where"],
-                                  None if ok else repr(t))
-                for v, val in d["scalars"].items():
-                    if v not in a["state"]:
-                        continue            # a unit-local temporary
-                    if v in ints:
-                        ok = not _mentions_data(val, floats)
-                        ctx.check(ok, f"{side} {nm} [{unit}]: the counter `{v}` does not depend on data", a["where"], None if ok else repr(val), nontrivial=False)
-                    else:
+        for t in ts.trans:
+            if t["src"] == Y.EPI:
+                continue
+            unit = f"{t['src']}->{t['dst']}"
+            for atom, taken in t["key"]:
+                if _mentions_data(atom, floats):
+                    ntests += 1
+                    ok = atom[0] == "cmp" and atom[1] == "<" and _is_absdiff(atom[2], floats) and _is_absdiff(atom[3], floats)
+                    ctx.check(ok, f"{side} {nm} [{unit}]: the data-dependent decision is a comparison of two ranges |p - q| < |r - s|", a["where"],
+                              None if ok else Y.show(atom))
+            for v, val in t["scal"].items():
+                if ts.state[t["dst"]].get(v) == "int":
+                    ok = not _mentions_data(val, floats)
+                    ctx.check(ok, f"{side} {nm} [{unit}]: the counter `{v}` does not depend on data", a["where"], None if ok else Y.show(val), nontrivial=False)
+                else:
+                    ok = _is_point(val, floats)
+                    ctx.check(ok, f"{side} {nm} [{unit}]: the carried value `{v}` is a point of the signal", a["where"], None if ok else Y.show(val))
+            for arr, st in t["arrays"].items():
+                if arr in ("rf", "os"):
+                    continue
+                for ix, val in st:
+                    if arr == "pts":
                         ok = _is_point(val, floats)
-                        ctx.check(ok, f"{side} {nm} [{unit}]: the carried value `{v}` is a point of the signal", a["where"], None if ok else repr(val))
-                for arr, st in d["arrays"].items():
-                    for ix, val in st.items():
-                        if arr == "pts":
-                            ok = _is_point(val, floats)
-                            ctx.check(ok, f"{side} {nm} [{unit}]: the reversal stack only ever holds points of the signal", a["where"], None if ok else repr(val),
-                                      nontrivial=False)
-                        else:
-                            ok = not _mentions_data(val, floats)
-                            ctx.check(ok, f"{side} {nm} [{unit}]: `{arr}` holds positions, never values", a["where"], None if ok else repr(val), nontrivial=False)
-                rf = d["out"].get("rf", {})
-                for r in sorted({r for r, _ in rf}):
-                    nrows += 1
-                    amp, mean, cnt = rf.get((r, 0)), rf.get((r, 1)), rf.get((r, 2))
-                    ok = amp is not None and amp[0] == "bin" and amp[1] == "/" and amp[3] == ("num", Fraction(2)) and _is_absdiff(amp[2], floats)
-                    ok2 = mean is not None and mean[0] == "bin" and mean[1] == "/" and mean[3] == ("num", Fraction(2)) and mean[2][0] == "bin" \
-                        and mean[2][1] == "+" and _is_point(mean[2][2], floats) and _is_point(mean[2][3], floats)
-                    same = ok and ok2 and {repr(amp[2][1][2]), repr(amp[2][1][3])} == {repr(mean[2][2]), repr(mean[2][3])}
-                    ok3 = cnt in (HALF, ONE)
-                    ctx.check(ok and ok2 and same and ok3, f"{side} {nm} [{unit}]: an emitted row is (|p - q| / 2, (p + q) / 2, 0.5 or 1) of one pair of points", a["where"],
-                              None if ok and ok2 and same and ok3 else {str(k): repr(v) for k, v in rf.items() if k[0] == r})
-                for arr in ("os",):
-                    for k2, val in d["out"].get(arr, {}).items():
-                        ok = _sel(val) and val[1] == "cycle_index"
-                        ctx.check(ok, f"{side} {nm} [{unit}]: offsets come from the position stack", a["where"], None if ok else repr(val), nontrivial=False)
+                        ctx.check(ok, f"{side} {nm} [{unit}]: the reversal stack only ever holds points of the signal", a["where"], None if ok else Y.show(val),
+                                  nontrivial=False)
+                    else:
+                        ok = not _mentions_data(val, floats)
+                        ctx.check(ok, f"{side} {nm} [{unit}]: `{arr}` holds positions, never values", a["where"], None if ok else Y.show(val), nontrivial=False)
+            rf = rows_of(t["arrays"].get("rf", []), 3)
+            if rf is None:
+                ctx.error(f"{side} {nm} [{unit}]: output stores are not whole rows", a["where"])
+                continue
+            for rk, (row, cells) in sorted(rf.items()):
+                nrows += 1
+                amp, mean, cnt = _half_of(cells.get(0)), _half_of(cells.get(1)), cells.get(2)
+                ok = amp is not None and _is_absdiff(amp, floats)
+                ok2 = mean is not None and mean[0] == "bin" and mean[1] == "+" and _is_point(mean[2], floats) and _is_point(mean[3], floats)
+                same = ok and ok2 and {repr(amp[1][2]), repr(amp[1][3])} == {repr(mean[2]), repr(mean[3])}
+                ok3 = cnt in (HALF, ONE)
+                good = bool(ok and ok2 and same and ok3)
+                ctx.check(good, f"{side} {nm} [{unit}]: an emitted row is (|p - q| / 2, (p + q) / 2, 0.5 or 1) of one pair of points", a["where"],
+                          None if good else {str(k): Y.show(v) for k, v in cells.items()})
+            for ix, val in t["arrays"].get("os", []):
+                ok = _sel(val, "cycle_index")
+                ctx.check(ok, f"{side} {nm} [{unit}]: offsets come from the position stack", a["where"], None if ok else Y.show(val), nontrivial=False)
         ctx.check(ntests >= 1 and nrows == 3, f"{side} {nm}: value-flow rule bound to {ntests} data-dependent decisions and {nrows} emission paths", a["where"],
                   nontrivial=False)
 
 
 # ---------------------------------------------------------------------------
-def counter_program(a):
-    """abstract the effects to a program over the integer state for e8_karr.Analysis:
-       ('acc', array, index Aff, 'r'|'w'), ('rows', n, nfull), ('pset', [(var, Aff)]), plus if / break / for / while of the IR"""
-    res = a["res"]
-    ints = res["ints"]
-
-    def leaf(d):
-        out = []
-        for arr, ix, rw in d["acc"]:
-            out.append(("acc", arr, ix, rw))
-        rows = d["rows"].get("rf", 0)
-        nfull = sum(1 for (r, c), v in d["out"].get("rf", {}).items() if c == 2 and v == ONE)
-        nhalf = sum(1 for (r, c), v in d["out"].get("rf", {}).items() if c == 2 and v == HALF)
-        if rows != nfull + nhalf:
-            raise Unsupported("an emitted count is neither 0.5 nor 1")
-        if d["rows"].get("os", rows) != rows:
-            raise Unsupported("offset rows and value rows written on a path differ in number")
-        if rows:
-            out.append(("rows", rows, nfull))
-        sets = []
-        for v, val in d["scalars"].items():
-            if v in ints:
-                sets.append((v, Y.Path(ints).aff(val)))
-        if any(x is None for _, x in sets):
-            raise Unsupported("integer update that is not affine")
-        if sets:
-            out.append(("pset", sets))
-        if d["break"]:
-            out.append(("break",))
-        return out
-
-    def tree(paths, depth):
-        # paths: list of effect dicts sharing the first `depth` decisions
-        if len(paths) == 1 and len(paths[0]["keyexpr"]) == depth:
-            return leaf(paths[0])
-        t = paths[0]["keyexpr"][depth][0]
-        yes = [p for p in paths if len(p["keyexpr"]) > depth and p["keyexpr"][depth][1]]
-        no = [p for p in paths if len(p["keyexpr"]) > depth and not p["keyexpr"][depth][1]]
-        if len(yes) + len(no) != len(paths) or any(p["keyexpr"][depth][0] != t for p in paths):
-            raise Unsupported("paths of a unit do not form a decision tree")
-        if t[0] == "bool":
-            return tree(yes if t[1] else no, depth + 1)
-        cond = ("nd",)
-        if t[0] == "cmp" and t[2][0] in ("aff", "var", "num") and t[3][0] == "num":
-            cond = ("cmpaff", t[1], _ixaff(t[2]) - Aff({}, t[3][1]))
-        return [("if", cond, tree(yes, depth + 1) if yes else [("unreachable",)], tree(no, depth + 1) if no else [("unreachable",)])]
-
-    def unit(name):
-        return tree(list(res[name].values()), 0)
-
-    ov, olo, ohi = res["outer_range"]
-    tv, tlo, thi = res["tail_range"]
-    wc = res["while_cond"]
-    if wc[0] != "cmp":
-        raise Unsupported("inner loop condition")
-    p = Y.Path(ints)
-    wca = ("cmpaff", wc[1], _ixaff(p.simp(wc[2])) - _ixaff(p.simp(wc[3])))
-    prog = [("for", ov, _ixaff(p.simp(olo)), _ixaff(p.simp(ohi)), unit("push") + [("while", wca, unit("pop"))])]
-    prog += unit("mid")
-    prog += [("for", tv, _ixaff(p.simp(tlo)), _ixaff(p.simp(thi)), unit("tail"))]
-    return prog
+def counter_edges(a):
+    """the transitions of the raw (un-normalised) system as edges of e8_karr.GraphAnalysis: integer tests, affine updates of the program's own
+    integer variables, array accesses, output stores"""
+    ts = a["raw"]
+    ex = ts.ex
+    edges = []
+    for t in ts.trans:
+        guard = []
+        for atom, taken in t["key"]:
+            if atom[0] == "ige":
+                d = ex.aff(atom[1])
+                guard.append(("ge", d if taken else -d - 1))
+            elif atom[0] == "ieq":
+                d = ex.aff(atom[1])
+                guard.append(("eq" if taken else "ne", d))
+        pset = {}
+        for v, val in t["scal"].items():
+            if ts.state[t["dst"]].get(v) == "int":
+                pset[v] = ex.aff(val) if ex.is_int(val) else None
+        outs = {b: list(st) for b, st in t["arrays"].items() if b in ("rf", "os")}
+        label = f"{t['src']}->{t['dst']}" + ("" if not t["key"] else " when " + " and ".join(("" if tk else "not ") + Y.show(x) for x, tk in t["key"] if x[0] in ("ige", "ieq")))
+        edges.append(dict(src=t["src"], dst=t["dst"], guard=guard, pset=pset, acc=list(t["acc"]), outs=outs, label=label, trans=t))
+    return edges
